@@ -49,6 +49,21 @@ def _line_units(tier):
         [[1, ' ', 3]],
         [['k', 2, 'v', 2]],
     ]
+    # every `handle_*` / public method name of the live parser class tried as a directive word
+    # (a dispatch by method name would accept more than the three documented directives), and the
+    # three directives with every kind of separator
+    try:
+        from ZConfig.cfgparser import ZConfigParser
+        words = sorted(n for n in dir(ZConfigParser) if not n.startswith('__'))
+    except Exception:
+        words = []
+    for w in words:
+        w2 = w[7:] if w.startswith('handle_') else w
+        if w2 not in ('define', 'import', 'include'):
+            T.append([['%' + w2 + ' ', 1, ' ', 1]])
+            T.append([['%' + w2 + ' define ', 1, ' ', 1]])
+    for d in ('define', 'import', 'include', 'Define', 'INCLUDE'):
+        T.append([['%' + d, 1, 'a', 1, 'b']])
     if tier != 'quick':
         T += [
             [['%define ', 5]],
